@@ -36,6 +36,7 @@ func main() {
 	noEvidence := flag.Bool("no-evidence", false, "do not write evidence/report files (mutant analysis)")
 	dump := flag.Bool("dump", false, "print every obligation")
 	env := flag.String("env", "", "extra environment for the load, e.g. GOOS=windows")
+	ruleNames := flag.String("rules", "", "development: run only these rules (comma list, or 'all') as pseudo-property DEV")
 	manifest := flag.Bool("manifest", false, "print MANIFEST.json for the claimed properties and exit")
 	flag.Parse()
 	if *manifest {
@@ -43,6 +44,29 @@ func main() {
 		return
 	}
 
+	if *ruleNames != "" {
+		dev := &rules.Property{ID: "DEV"}
+		var names []string
+		if *ruleNames == "all" {
+			for n := range rules.ByName {
+				names = append(names, n)
+			}
+			sort.Strings(names)
+		} else {
+			names = strings.Split(*ruleNames, ",")
+		}
+		for _, n := range names {
+			r, ok := rules.ByName[n]
+			if !ok {
+				fmt.Fprintf(os.Stderr, "unknown rule %s\n", n)
+				os.Exit(2)
+			}
+			dev.Rules = append(dev.Rules, r)
+		}
+		rules.Properties["DEV"] = dev
+		*prop = "DEV"
+		*noEvidence = true
+	}
 	if *prop == "" {
 		fmt.Fprintln(os.Stderr, "usage: knutlint -prop Cxx [-tier quick|thorough]")
 		os.Exit(2)
@@ -50,7 +74,9 @@ func main() {
 	var props []string
 	if *prop == "all" {
 		for id := range rules.Properties {
-			props = append(props, id)
+			if id != "DEV" {
+				props = append(props, id)
+			}
 		}
 		sort.Strings(props)
 	} else {
